@@ -218,6 +218,8 @@ def run_shard(shard, tier, acc):
         n = shard["n"]
         pairs = list(itertools.combinations(range(n), 2))
         for start in range(0, 1 << len(pairs), max(1, (1 << len(pairs)) // 24)):
+            if shard.get("only_start") not in (None, start):
+                continue
             g = gq.nx_graph(n, [p for i, p in enumerate(pairs) if (start >> i) & 1])
             cur = set(p for i, p in enumerate(pairs) if (start >> i) & 1)
             hist = []
@@ -300,6 +302,12 @@ def replay_case(case, acc):
         grp = P.StabGroup.from_strings(case["gens"])
         tab = gq.group_to_stabilizer_tableau(grp)
         check_heights(acc, tab.x_matrix.copy(), tab.z_matrix.copy(), group_heights(grp), case)
+    elif "first_mask" in case:
+        run_shard({"kind": "graphs", "n": case["n"], "lo": case["first_mask"], "hi": min(case["first_mask"] + 8, 1 << (case["n"] * (case["n"] - 1) // 2))}, "quick", acc)
+    elif "family" in case:
+        run_shard({"kind": "big", "n": case["n"]}, "quick", acc)
+    elif "start_mask" in case:
+        run_shard({"kind": "mutate", "n": case["n"], "only_start": case["start_mask"]}, "quick", acc)
     else:
         n, edges = case["n"], [tuple(e) for e in case["edges"]]
         pairs = list(itertools.combinations(range(n), 2))
